@@ -47,15 +47,27 @@ IncrbInts == {0, 1, 2}
 IncrbOfInt(n) == CASE n = 0 -> {} [] n = 1 -> {"a", "v"} [] n = 2 -> {"d", "v", "a"}
 
 Layouts == {<<nrb, nel, nrf>> : nrb \in 0..1, nel \in 1..2, nrf \in 0..1}
-Cfgs == {[lay |-> l, incrb |-> ib, intform |-> it, rfdo |-> rd, solver |-> s, coupling |-> c, mform |-> mf, pre_eig |-> pe, cplxk |-> ck] :
+\* stress dimensions that do not change the mathematical problem:
+\*   hgiven  the SolveUnc object is built WITH a time step (it then starts with one of each complex-conjugate pair deleted and must
+\*           add them back for the frequency domain)
+\*   damp    "mixed": one elastic equation over-damped, the other under-damped (real and complex eigenvalues side by side)
+\*   forder  position of the frequencies in the vector: ascending, 0 Hz last, shuffled - a column's answer does not depend on it
+Stress == {<<FALSE, "under", "asc">>, <<TRUE, "mixed", "asc">>, <<TRUE, "under", "zerolast">>, <<FALSE, "mixed", "shuffled">>,
+           <<TRUE, "mixed", "shuffled">>}
+Cfgs == {[lay |-> l, incrb |-> ib, intform |-> it, rfdo |-> rd, solver |-> s, coupling |-> c, mform |-> mf, pre_eig |-> pe, cplxk |-> ck,
+          hgiven |-> st[1], damp |-> st[2], forder |-> st[3]] :
             l \in Layouts, ib \in IncrbStrings, it \in BOOLEAN, rd \in BOOLEAN, s \in {"SolveUnc", "FreqDirect"},
-            c \in {"diag", "coupled"}, mf \in {"none", "vec", "mat"}, pe \in BOOLEAN, ck \in BOOLEAN}
+            c \in {"diag", "coupled"}, mf \in {"none", "vec", "mat"}, pe \in BOOLEAN, ck \in BOOLEAN, st \in Stress}
 Legal(c) ==
   /\ (c.intform => c.incrb \in {IncrbOfInt(n) : n \in IncrbInts})
   /\ (c.coupling = "coupled" => (c.lay[2] = 2 /\ c.mform # "vec"))
   /\ (c.mform = "vec" => c.coupling = "diag")
   /\ (c.pre_eig => (c.solver = "SolveUnc" /\ c.coupling = "coupled" /\ c.mform = "mat" /\ c.lay[3] = 0 /\ ~c.cplxk))
   /\ (c.cplxk => c.coupling = "diag")          \* complex stiffness exercised on the uncoupled path
+  /\ (c.hgiven => c.solver = "SolveUnc")       \* FreqDirect has no time step
+  /\ (c.damp = "mixed" => (c.lay[2] = 2 /\ ~c.cplxk))
+  \* the stress combinations are explored on the options that matter for them (full rigid-body output kept or dropped)
+  /\ (<<c.hgiven, c.damp, c.forder>> # <<FALSE, "under", "asc">> => (c.incrb \in {{"d", "v", "a"}, {"a"}, {}} /\ ~c.intform /\ ~c.rfdo))
 
 \* zero pattern: TRUE = must be exactly zero
 ZeroAt(c, block, quant, zerohz) ==
@@ -76,6 +88,7 @@ ElNeverForcedZero == \A qu \in Quant, z \in BOOLEAN : ~ZeroAt(q, "el", qu, z)
 
 ExportCfg == Export => PrintT(<<"CFG", q, ZeroHzAllowed(q),
      [bl \in {"rb", "el", "rf"} |-> [qu \in Quant |-> <<ZeroAt(q, bl, qu, FALSE), ZeroAt(q, bl, qu, TRUE)>>]]>>)
-ExportTerms == (Export /\ q.incrb = {} /\ q.lay = <<0, 1, 0>> /\ ~q.rfdo /\ q.solver = "SolveUnc" /\ q.mform = "none" /\ ~q.intform /\ ~q.cplxk) =>
+ExportTerms == (Export /\ q.incrb = {} /\ q.lay = <<0, 1, 0>> /\ ~q.rfdo /\ q.solver = "SolveUnc" /\ q.mform = "none" /\ ~q.intform /\ ~q.cplxk
+                /\ ~q.hgiven /\ q.damp = "under" /\ q.forder = "asc") =>
    PrintT(<<"FTERMS", [el |-> <<ElD, ElV, ElA>>, rb |-> <<RbD, RbV, RbA>>, rf |-> <<RfD, RfV, RfA>>]>>)
 =============================================================================
